@@ -6,6 +6,8 @@ Parts (each a family of shards):
   ref     slice_spect_data, policy 'ref'
   tok     chunk_token_sequences_by_slices
   dir     chunk-torch-spect-data-dir over generated directories (checks/_c10_dir.py)
+  guard   arguments unchanged / results not aliased / layouts / module histories / garbage beyond the
+          lengths / one larger instance (checks/_c10_guard.py)
 """
 
 import itertools
@@ -41,6 +43,15 @@ RULE = (
     "set (missing, empty; inverted excluded) x every slice in [-2,6]^2 ([-3,7]^2) x partial x retain, ref_lens "
     "omitted (per list length) / given (lists of <= 2 padded with a token that the slice would keep; "
     "thorough: every 3-list x ref_lens 0..3); one-row calls for lists of <= 1. dir: see _c10_dir.RULE. "
+    "guard (checks/_c10_guard.py): per policy x 3 x 2 x lobes {0,1,2} (slicer; fixed T=6 all lengths, ali every "
+    "row of T=4, ref every list of <= 2 segments x other_lens {0,3,6}) and per partial x retain (tokens; every "
+    "second (2-list, slice) row with a third token beyond ref_lens), a fixed history of 13-14 calls on ONE "
+    "module object and the functional: plain, rows reversed (same shapes, other values), other N/T/R with "
+    "lengths omitted, one row, plain again, offset view, transposed-dense, triple dimension outermost / "
+    "slices = stack([s,e]).T (column views contiguous), int32 lengths / alignments / slices and float64 "
+    "features, garbage beyond in_lens / ref_lens (NaN, inf, +-2^62, negative, plausible), one larger instance "
+    "(T=300 / 200 / R=40), plus (1,1,3) refs for every segment; every call: arguments unchanged, the previous "
+    "result and the previous module result unchanged, result equal to the oracle. "
     "Cases are cartesian products of duplicate-free generators (distinct by construction); a case is "
     "non-trivial when the oracle prescribes >= 1 window (slicer) / the list holds >= 1 known token and "
     "the slice is non-degenerate (tokens) / the directory yields >= 1 chunk."
@@ -58,6 +69,8 @@ ASSUMPTIONS = [
     "start >= end (never produced by the slicer) only have to keep an in-order sub-list of the known "
     "tokens with correctly shifted boundaries",
     "a token with an empty segment is 'contained' in a slice [a,b) when a <= start == end <= b",
+    "int32 is enumerated only where the implementation's contract is dtype-agnostic (lengths, alignments, token "
+    "slices); int32 refs are not (the output would inherit the dtype, the documentation says long)",
     "directory level: pad mode 'constant' only (padding content belongs to C09); TorchScript/CUDA not explored",
 ]
 BUDGET_S = {"quick": 240, "thorough": 2400}
@@ -111,10 +124,12 @@ def shards(tier, seed):
         for retain in (False, True):
             out.append({"part": "tok", "partial": partial, "retain": retain, "first": None})
     from checks import _c10_dir as D
+    from checks import _c10_guard as G
 
     out.extend(D.shards(tier, seed))
+    out.extend(G.shards(tier, seed))
     # heavy shards first so that the pool stays busy
-    order = {"dir": 0, "ref": 1, "tok": 2, "ali": 3, "fixed": 4}
+    order = {"dir": 0, "guard": 1, "ref": 2, "tok": 3, "ali": 4, "fixed": 5}
     out.sort(key=lambda s: order[s["part"]])
     return out
 
@@ -130,6 +145,10 @@ def run_shard(spec, tier, seed):
         _shard_ref(ctx, spec, tier, seed)
     elif part == "tok":
         _shard_tok(ctx, spec, tier, seed)
+    elif part == "guard":
+        from checks import _c10_guard as G
+
+        G.run_shard(ctx, spec, tier, seed)
     else:
         from checks import _c10_dir as D
 
@@ -148,6 +167,10 @@ def replay(case):
         _eval_ref(ctx, call, seed)
     elif part == "tok":
         _eval_tok(ctx, call, seed)
+    elif part == "guard":
+        from checks import _c10_guard as G
+
+        G.run_group(ctx, call, seed)
     else:
         from checks import _c10_dir as D
 
